@@ -93,3 +93,14 @@ check('C02',
       'must be feasible.',
       TB + 'The independent formulation is supporting evidence and the failing-input search, not a proof; its own correctness is trusted.',
       'Coq proof (building blocks, partial) + differential correspondence + independent reference LP per instance', 'DESIGN.md 5 C02')
+check('C15',
+      'Theorems (any problem, any mapping with any number of rows per variable, any window, any previous point): exactly the variables '
+      'having a mapping row at a step of the window get l = u = previous value, every other bound, the costs, rows and mapping are '
+      'untouched; every feasible point of the rebuilt problem carries the previous values on the window; if the previous point was '
+      'optimal it stays optimal and nothing new becomes feasible, so the optimum is unchanged. The model fix_window applied to the '
+      'implementation\'s own problem is compared with Portfolio.setup_optim_problem(fix_time_window=...) for mask, index and date '
+      'windows (incl. dates in the repeated hour of a DST switch, coarse-frequency / periodic / transport / multi-commodity / scaled / '
+      'structured assets); on the implementation the pinned set is recomputed from the mapping, and the problem is re-optimised with '
+      'unchanged prices (value and window values unchanged) and with changed prices (window values unchanged, other bounds free).',
+      TB + 'A date window means all steps whose time point is not after the date (the behaviour of the unchanged tree).',
+      'Coq proof + differential correspondence + implementation oracle (re-optimisation)', 'DESIGN.md 5 C15')
